@@ -50,6 +50,12 @@ CHECKS = {
             "z3 (python bindings) primary verdict, /usr/bin/z3 4.8.12 and cvc5 as second opinion (a contradiction makes the obligation inconclusive); translator validated against the native functions on boundary and seeded vectors per run; "
             "extension-field identities, exp/inv exponent chains and f128 mul are not covered in this round",
             "DESIGN.md section 4 C10"),
+    "C11": ("bounded model checking (Kani/CBMC) of every integer / byte decoder and encoder of f64, f62, f128 (and the quadratic wrapper over f128) on symbolic inputs; Montgomery conversion replaced by a recording stub for f64/f62",
+            "Encoding clauses only: for every u64 / u128 / usize / byte slice of length 0..=ELEMENT_BYTES+1 each decoder (TryFrom, read_from, from_random_bytes, from_bytes_with_padding) returns Err <=> the little-endian value is >= M "
+            "(or the length is wrong) and otherwise the element new(value); encoders write the little-endian bytes of as_int, as_int < M, integer conversions out of an element agree with as_int. f128 end to end on the real code.",
+            KANI_NOTE + "; the CONSTANTS clauses (primality, two-adicity, generator order, root-of-unity orders, irreducibility, Frobenius tables) are NOT decided: they have no input quantifier and would be ground evaluation, not a solver verdict; "
+            "as_int(new(v)) == v for f64/f62 is the composition of the C10 mirsym contracts (new, as_int); cubic wrapper and f62 encoders (symbolic Montgomery product) only in the thorough tier",
+            "DESIGN.md section 9.8 C11"),
     "C12": ("bounded model checking (Kani/CBMC) of permute_index (all sizes) and of the serial FFT over F17 for sizes 2 and 4",
             "Bit reversal for every power-of-two size up to 2^63; evaluate_poly / interpolate_poly / *_with_offset (blowup 2, offset GENERATOR) / infer_degree against naive evaluation for all coefficient vectors.",
             KANI_NOTE + "; F17 model field as type parameter (generic algorithm code is winterfell's); sizes >= 8, extension fields, threads outside",
@@ -63,6 +69,23 @@ CHECKS = {
             "batch_inversion (lengths 0, 1, 3; zeros anywhere), power series with and without offset (n <= 4, n = 0 included), add_in_place, mul_acc, group/flatten/transpose element order.",
             KANI_NOTE + "; the 1024-element batch boundary and all thread counts (feature concurrent) are outside",
             "DESIGN.md section 4 C14"),
+    "C15": ("bounded model checking (Kani/CBMC) of the real Blake3_256 / Blake3_192 wrapper code with the blake3 primitive replaced by a recording stub whose output is a solver variable",
+            "For symbolic bytes, digests, integers and field elements the byte string presented to the primitive is compared with the documented layout (bytes; d0||d1; d||LE64(v); concatenated digests; "
+            "canonical little-endian element bytes for f128 and Montgomery-form f64, independent of the internal representation), the call count is 1, and the digest is the primitive's output (truncated to 24 bytes for Blake3_192).",
+            KANI_NOTE + "; the blake3 compression function itself is outside (stubbed: -Z stubbing of blake3::hash / Hasher::new/update/finalize); SHA3 wrappers share the code shape and are not separately instantiated; inputs <= 2 elements / 3 digests / 8 bytes",
+            "DESIGN.md section 9.8 C15"),
+    "C16": ("bounded model checking (Kani/CBMC) of the real Rp64_256 sponge code with the permutation replaced by a recording stub + MIR-to-SMT symbolic execution (mirsym) of the frequency-domain MDS multiplication",
+            "Sponge rules: for symbolic elements / digests / bytes / integers the state presented to each permutation call (capacity word, rate words, absorb-by-addition after the first block, byte chunking with the 1 padding byte) "
+            "and the digest position (words 4..8) equal the documented construction; number of permutation calls exact. MDS: for all 32-bit halves mds_multiply_freq has no i64 overflow and equals the published circulant matrix "
+            "product over the integers (12x12 and 8x8); mds_multiply returns in-invariant elements congruent to the matrix rows for all states.",
+            KANI_NOTE + "; the permutation's round function (S-box x^7, inverse S-box exponent chain, round constants) is NOT symbolically covered: 64-bit modular exponentiation chains are outside both engines; "
+            "mirsym: z3 integer encoding, second opinion z3 4.8.12 + cvc5; Rp62_248 / RpJive64_256 sponge code not instantiated",
+            "DESIGN.md section 9.8 C16"),
+    "C17": ("bounded model checking (Kani/CBMC): pairwise difference of the inputs presented to the (stubbed) permutation / blake3 primitive for an input and its zero-extension",
+            "For symbolic x the primitive inputs of hash(x) and hash(x||0..0) (1v2, 6v7, 7v8, 7v14 bytes; 1v2 and 7v8 elements) differ for every x; merge_with_int(seed, v) and (seed, v + p) differ for every v; "
+            "same for the BLAKE3 wrappers' byte strings. Distinct primitive inputs give distinct digests exactly when the primitive is collision free (assumption).",
+            KANI_NOTE + "; collision resistance of the permutation / blake3 is the stated assumption; lengths <= 15 bytes / 8 elements",
+            "DESIGN.md section 9.8 C17"),
     "C18": ("bounded model checking (Kani/CBMC) of MerkleTree build / prove / verify with a deterministic model hasher and symbolic digests",
             "2, 4 and 8 leaves: root equals the recursive pairwise hash, every single opening (symbolic index) verifies, out-of-range indexes and bad leaf counts are errors, from_raw_parts agrees.",
             KANI_NOTE + "; batch-proof clauses are NOT covered (B-tree bound code: edge attempts in the thorough tier only); parallel build outside",
@@ -81,6 +104,13 @@ CHECKS = {
             "validation, step counts and apply() order against the arithmetic progression. Trace lengths up to 2^32, sequences of 2..8 values (16/64 thorough).",
             KANI_NOTE + "; assertion values are irrelevant to the clauses and fixed; prepare_assertions (private, B-tree based) is not executed",
             "DESIGN.md section 4 C21"),
+    "C22": ("bounded model checking (Kani/CBMC) of ConstraintDivisor::from_assertion / evaluate_at / degree over F17 (trace length 8) and of the assertion order used for coefficient assignment",
+            "Divisor clause: for every single / periodic (stride 2,4,8) / sequence (2x4, 4x2) assertion with any admissible first step and EVERY field point y, the divisor is zero at y <=> y is the trace-domain point of an asserted step, "
+            "and its degree is the number of asserted steps. Order clause: Assertion::cmp on three symbolic assertions is antisymmetric, transitive, follows (stride, first step, column) and returns Equal only for overlapping assertions, "
+            "so the sorted list prepare_assertions builds is a function of the assertion set.",
+            KANI_NOTE + "; the value-polynomial clause (BoundaryConstraint::evaluate_at with FFT interpolation and x-offset) and the end-to-end order independence run through BTreeSet/BTreeMap code and exist only as thorough/edge instances - NOT claimed unless they finish; "
+            "F17 and trace length 8 only; sequences of 64+ values, real fields and proof bytes are outside",
+            "DESIGN.md section 9.8 C22"),
     "C23": ("bounded model checking (Kani/CBMC) of the degree formulas (stand-in field, integer arithmetic only) and ground evaluation of the real transition divisor over F17",
             "TransitionConstraintDegree::get_evaluation_degree and min_blowup_factor equal their definitions for base degrees 1..=16, 0..=2 cycles and all trace lengths 8..2^32; "
             "ConstraintDivisor::from_transition(8, e), e = 1..=4, has degree 8-e, vanishes on exactly the non-exempt trace-domain points and equals (x^8-1)/prod(x-g^t) off the domain.",
@@ -131,7 +161,7 @@ def main():
             "thorough_cmd": f"python3 run.py {pid} --tier thorough",
             "evidence_file": f"/verif/evidence/{pid}.json",
             "replay_cmd_template": "python3 replay.py {path}",
-            "engine": "mirsym+kani" if pid in ("C10", "C11", "C16") else "kani",
+            "engine": "mirsym+kani" if pid in ("C10", "C16") else "kani",
             "level_claimed": {"category": "model_checking", "text": text, "design_ref": ref},
             "level_note": note,
             "technique": tech,
@@ -150,7 +180,7 @@ def main():
         "engines": [
             {"name": "kani", "path": "/verif/kani", "serves_properties": [c["property_id"] for c in checks],
              "kind_free_text": "Kani 0.68 / CBMC 6.11 bounded model checking of the compiled /repo crates (path dependencies, rebuilt from the working tree on every run)"},
-            {"name": "mirsym", "path": "/verif/mirsym", "serves_properties": ["C10"],
+            {"name": "mirsym", "path": "/verif/mirsym", "serves_properties": ["C10", "C16"],
              "kind_free_text": "MIR-to-SMT symbolic interpreter (nightly -Zunpretty=mir dump of a scratch copy of /repo on every run, z3 integer encoding with explicit mod 2^k, /usr/bin/z3 and cvc5 as second opinion, native replay tool)"},
         ],
         "checks": checks,
